@@ -1231,8 +1231,42 @@ class Interp(object):
                 res.append((ex, "next", None))
         return res
 
-    def s_While(self, st, node):
-        raise Unsupported("while loop at %s" % self.loc(node))
+    def s_While(self, st, node, limit=2000):
+        """while: the test is evaluated at every loop head; loop-head states that were seen before are dropped (fixpoint
+        over a finite abstract state space), a loop that keeps producing new states is given up after `limit` heads."""
+        res = []
+        seen = set()
+        work = [st]
+        heads = 0
+        while work:
+            s0 = work.pop()
+            key = s0.key()
+            if key in seen:
+                continue
+            seen.add(key)
+            heads += 1
+            self.stats["loop_heads"] += 1
+            if heads > limit:
+                raise Unsupported("while loop at %s does not reach a fixpoint within %d loop heads" % (self.loc(node), limit))
+            for (s1, k1, tv) in self.eval(s0, node.test):
+                if k1 != "val":
+                    res.append((s1, k1, tv))
+                    continue
+                for (s2, b) in self.truth(s1, tv, node.test):
+                    if not b:
+                        if node.orelse:
+                            res.extend(self.exec_block(s2, node.orelse))
+                        else:
+                            res.append((s2, "next", None))
+                        continue
+                    for (s3, k3, v3) in self.exec_block(s2, node.body):
+                        if k3 in ("next", "continue"):
+                            work.append(s3)
+                        elif k3 == "break":
+                            res.append((s3, "next", None))
+                        else:
+                            res.append((s3, k3, v3))
+        return res
 
     def s_FunctionDef(self, st, node):
         # nested function: a closure object (attributes can be attached to it)
